@@ -24,7 +24,7 @@ import numpy as np  # noqa: E402
 import z3  # noqa: E402
 from symreal import core, shims  # noqa: E402
 from symreal.api import H, Claim, AssumptionFailed, _looks_not_encodable  # noqa: E402
-from symreal.core import Ctx, NotEncodable, PathBudget  # noqa: E402
+from symreal.core import Ctx, NotEncodable, PathBudget, PrunedPath  # noqa: E402
 
 NWORKERS = max(2, min(15, (os.cpu_count() or 4) - 1))
 PY = sys.executable
@@ -42,9 +42,22 @@ def _where(tb):
     return f"{os.path.basename(fr.filename)}:{fr.lineno}"
 
 
-def run_path(claim, decisions, mode='sym', given=None, seed=0):
+def _prune_check(c):
+    """explorer hook: is the decision just taken refuted by a cone-of-influence relaxation (1 s)?"""
+    goal = c.path[-1]
+    rest = list(c.assumptions) + list(c.path[:-1])
+    for sl in _slices(rest, goal):
+        if _solve(sl + [goal], 1.0)[0] == 'unsat':
+            return True
+    return False
+
+
+def run_path(claim, decisions, mode='sym', given=None, seed=0, prune=False):
     """execute the claim once; returns (ctx, h, status, info)"""
     c = Ctx(decisions, concolic=(mode == 'concolic'), values=claim.values)
+    if prune and decisions:
+        c.prune_at = len(decisions) - 1
+        Ctx.prune_check = staticmethod(_prune_check)
     c.sym_random = claim.sym_random
     h = H(mode, given=given, seed=seed, tol=claim.tol)
     Ctx.cur = c if mode != 'concrete' else None
@@ -55,6 +68,8 @@ def run_path(claim, decisions, mode='sym', given=None, seed=0):
         status, info = 'notenc', dict(msg=str(e)[:200])
     except PathBudget as e:
         status, info = 'budget', dict(msg=str(e))
+    except PrunedPath:
+        status, info = 'pruned', None
     except AssumptionFailed:
         status, info = 'assume-failed', None
     except Exception as e:  # noqa: BLE001 - exceptions of the code under test are results
@@ -71,7 +86,7 @@ def explore(claim):
     """depth-first enumeration of decision prefixes; no solver involved"""
     prefix, paths = [], []
     while True:
-        c, h, status, info = run_path(claim, prefix)
+        c, h, status, info = run_path(claim, prefix, prune=True)
         dec = c.decisions[:c.pos]
         paths.append(dict(decisions=list(dec), status=status, info=info,
                           labels=[o[0] for o in c.oblig], kinds=[o[2] for o in c.oblig]))
@@ -509,6 +524,9 @@ def main(argv=None):
             if p['decisions'] is None:
                 results[(c.name, pi)] = dict(feas=dict(result='n/a', status='budget', info=p['info']), obl={})
                 continue
+            if p['status'] == 'pruned':
+                results[(c.name, pi)] = dict(feas=dict(result='unsat', status='pruned', info=None, time=0.0), obl={})
+                continue
             results[(c.name, pi)] = dict(feas=None, obl={}, inflight=None)
             to = c.timeout.get(tier, qto) if isinstance(c.timeout, dict) else (c.timeout or qto)
             n = len(p['labels'])
@@ -602,7 +620,7 @@ def main(argv=None):
     incon, notenc, samples = [], [], []
     per_claim = {}
     for c in claims:
-        pc = per_claim[c.name] = dict(paths=0, feasible=0, obligations=0, discharged=0, inconclusive=0, candidates=0, max_t=0.0)
+        pc = per_claim[c.name] = dict(paths=0, feasible=0, obligations=0, discharged=0, inconclusive=0, candidates=0, max_t=0.0, solver_s=0.0)
         for pi, p in enumerate(paths[c.name]):
             R = results[(c.name, pi)]
             stats['paths'] += 1
@@ -659,6 +677,7 @@ def main(argv=None):
                 stats['queries'] += 1
                 stats['solver_s'] += res.get('time', 0.0)
                 pc['max_t'] = max(pc['max_t'], res.get('time', 0.0))
+                pc['solver_s'] += res.get('time', 0.0)
                 if res['result'] == 'unsat':
                     stats['discharged'] += 1
                     pc['discharged'] += 1
@@ -727,6 +746,8 @@ def main(argv=None):
               f"discharged={stats['discharged']} (trivial {stats['trivial']}, tol {stats['tol_discharged']}) inconclusive={stats['inconclusive']} "
               f"not_encodable={stats['not_encodable']} spurious={len(spurious)} violations={len(violations)} known={len(known_hit)} "
               f"queries={stats['queries']} solver_s={stats['solver_s']:.1f} wall={wall:.1f}s")
+        top = sorted(per_claim.items(), key=lambda kv: -kv[1]['solver_s'])[:6]
+        print('  heaviest claims (solver s):', ', '.join(f"{k}={v['solver_s']:.0f}s/{v['obligations']}obl/{v['paths']}p" for k, v in top))
         for s in incon[:40]:
             print('  inconclusive:', s)
         for s in notenc[:20]:
